@@ -13,6 +13,10 @@
 (***************************************************************************)
 EXTENDS Reader, Json, Integers
 
+CONSTANT Strict   \* TRUE: the code must also offer exactly the free space of a B-byte window at every Read
+                  \* (binds the cursor arithmetic of Reader.tla to the code); FALSE: B is only an upper
+                  \* bound, so that any buffer strategy that keeps the property is accepted
+
 Trace == ndJsonDeserialize("reader_trace.ndjson")
 
 VARIABLE l
@@ -34,7 +38,7 @@ TBegin == /\ l <= Len(Trace) /\ Ev.ev = "begin"
 TSilent == /\ l > 1 /\ pc \in {"search", "fill"} /\ (Search \/ Slide) /\ UNCHANGED l
 
 TRead == /\ l <= Len(Trace) /\ Ev.ev = "read" /\ pc = "read"
-         /\ Ev.n <= Ev.offered /\ Ev.offered = B - w         \* the code offers the free space of its window
+         /\ (Strict => Ev.n <= Ev.offered /\ Ev.offered = B - w)   \* the code offers the free space of its window
          /\ ReadN(Ev.n)
          /\ reads'[Len(reads')][2] = (IF Ev.err = "" THEN "" ELSE fin)
          /\ Ev.written = Returned                            \* C11: nothing returned is withheld
